@@ -373,3 +373,16 @@ RAW['C02'] += [
   forall x, In x (execs (rev (trace (snd ra)))) -> In x (execs (rev (trace (snd rb))))""",
    'intros gen wck RC OC P sf always HS HWF HC HW HOC. exact (incremental_executes_subset_any_history gen wck RC OC P sf always HS HWF HC HW HOC).'),
 ]
+
+RAW['C02'] += [
+  ('C02_requiring_again_executes_nothing_any_history',
+   'idempotence over EVERY history (static class, reflexive checkers): after any history - bottom-up builds, mixed sessions included - a session of requires followed by the same session again with nothing changed returns the same values, executes NOTHING and changes no resource',
+   TOTAL_BINDERS + """  (forall c env r v, rc_check (RC c) env r v (sf c r v) = Consistent) ->
+  (forall c o, oc_check (OC c) o (oc_stamp (OC c) o) = true) ->
+  forall fuel h ops, roots_below ord fuel ops ->
+  let w := snd (run_history RC OC P always fuel init_world h) in
+  let r1 := run_session RC OC P always fuel (new_session w) ops in
+  let r2 := run_session RC OC P always fuel (new_session (snd r1)) ops in
+  fst r2 = fst r1 /\\ execs (rev (trace (snd r2))) = [] /\\ forall r, get_content (snd r2) r = get_content (snd r1) r""",
+   'intros gen wck ord RC OC P sf always HS HWF HWO HR HRO fuel h ops. exact (second_session_executes_nothing_any_history gen wck ord RC OC P sf always HS HWF HWO HR HRO fuel h ops).'),
+]
